@@ -164,6 +164,16 @@ def toy_block(draw, i, kind):
     elif kind == "dirichlet":
         n = draw(st.integers(2, 5))
         b.update(n=n, alpha=[draw(fl(1.5, 6.0)) for _ in range(n)], init=draw(simplex(n, spread=draw(fl(0.0, 2.0)))))
+    elif kind == "uniform":
+        # bounded prior: x ~ Uniform(low, high) x Normal(loc, scale), the Uniform made by the shipped Distribution's
+        # constructor with validate_args=False (outside the support the log density is -inf, not an exception); the
+        # start is outside the support half of the time: a run that begins on a state of zero density
+        n = 1
+        low, width = draw(fl(-2.0, 2.0)), draw(logu(0.5, 4.0))
+        where = draw(st.sampled_from(["inside", "below", "above", "above"]))
+        d = draw(logu(0.05, 2.0))
+        init = {"inside": low + width * draw(fl(0.05, 0.95)), "below": low - d, "above": low + width + d}[where]
+        b.update(n=1, low=low, high=low + width, loc=[low + width * draw(fl(0.0, 1.0))], scale=[draw(logu(0.2, 3.0))], init=[init])
     elif kind == "gmrf":
         # field ~ GMRF(precision); the precision is a positive parameter sampled WITHOUT a transform and without a
         # validated prior: outside its support the target is NaN (not an exception), the case MCMC.run rejects outright
@@ -183,7 +193,7 @@ POS_KINDS = ["gamma", "gamma", "lognormal"]
 @st.composite
 def toy_target(draw):
     kinds = [draw(st.sampled_from(REAL_KINDS)), draw(st.sampled_from(POS_KINDS))]
-    extra = draw(st.lists(st.sampled_from(REAL_KINDS + POS_KINDS + ["dirichlet", "dirichlet", "dirichlet"]), min_size=0, max_size=4))
+    extra = draw(st.lists(st.sampled_from(REAL_KINDS + POS_KINDS + ["dirichlet", "dirichlet", "dirichlet", "uniform", "uniform", "uniform"]), min_size=0, max_size=4))
     kinds += extra
     return {"blocks": [draw(toy_block(i, k)) for i, k in enumerate(kinds)]}
 
@@ -226,7 +236,9 @@ def params_of(c):
         out = []
         for b in c["blocks"]:
             k = b["kind"]
-            if k == "gmrf":
+            if k == "uniform":
+                out.append((b["id"], "bounded", b["init"]))
+            elif k == "gmrf":
                 out.append((b["id"], "real", b["init"]))
                 out.append((b["id"] + ".tau", "posfree", [b["tau_init"]]))
             elif k == "hnormal":
@@ -453,6 +465,15 @@ def operators(draw, c):
             if o["adaptor"] == "adaptive":
                 o["adapt"] = True
         ops.append(o)
+    for i in [i for i, k, _ in ps if k == "bounded"]:
+        # a window of the size of the support: proposals from outside land inside (-inf -> finite: acceptance probability 1)
+        # and proposals from inside leave it (finite -> -inf: 0)
+        b = [b for b in c["blocks"] if b["id"] == i][0]
+        o = draw(op_common("sliding"))
+        o["id"] = "op%d" % len(ops)
+        o["params"] = [i]
+        o["tuning"] = draw(logu(0.5, 4.0)) * (b["high"] - b["low"] + 2 * max(0.0, b["low"] - b["init"][0], b["init"][0] - b["high"]))
+        ops.append(o)
     if tiny:
         o = draw(op_common("sliding"))
         o["id"] = "op%d" % len(ops)
@@ -514,6 +535,9 @@ def target_spec(c, state):
                 dists.append(_dist("d." + x, "LogNormal", x, loc=b["loc"], scale=b["scale"]))
             elif k == "dirichlet":
                 dists.append(_dist("d." + x, "Dirichlet", x, concentration=b["alpha"]))
+            elif k == "uniform":
+                dists.append("d." + x + ".bound")  # made by the constructor in build_all (validate_args is not a JSON attribute)
+                dists.append(_dist("d." + x, "Normal", x, loc=b["loc"], scale=b["scale"]))
             elif k == "gmrf":
                 dists.append({"id": "d." + x, "type": "GMRF", "x": x, "precision": x + ".tau"})
             else:
@@ -600,8 +624,18 @@ def _by_constructor(o):
 
 def build_all(c, state, tmp=None, containers=None, with_mcmc=True):
     dic = {}
-    for s in target_spec(c, state):
+    spec = target_spec(c, state)
+    for s in spec[:-1]:
         tt.build(s, dic)
+    for b in c.get("blocks", []) if c["target"] == "toy" else []:
+        if b["kind"] == "uniform":
+            from torchtree.core.parameter import Parameter
+            from torchtree.distributions.distributions import Distribution
+
+            x = b["id"]
+            dic["d." + x + ".bound"] = Distribution("d." + x + ".bound", torch.distributions.Uniform, dic[x],
+                                                    {"low": Parameter(None, tt.T([b["low"]])), "high": Parameter(None, tt.T([b["high"]]))}, validate_args=False)
+    tt.build(spec[-1], dic)
     mc = None
     if with_mcmc:
         for o in c["ops"]:
@@ -652,6 +686,9 @@ def toy_logp(c, state):
             tot += float(np.sum(-np.log(x) - np.log(s) - 0.5 * _L2PI - 0.5 * ((np.log(x) - m) / s) ** 2))
         elif k == "dirichlet":
             tot += _dir_logpdf(x, b["alpha"])
+        elif k == "uniform":
+            tot += lf.Block(dict(b, kind="normal")).logp(x)
+            tot += -math.log(b["high"] - b["low"]) if b["low"] <= x[0] < b["high"] else -math.inf
         elif k == "gmrf":
             tot += og.gmrf_logpdf(x, float(state[b["id"] + ".tau"][0]), np.ones(len(x) - 1))
         else:
@@ -1313,7 +1350,10 @@ def _body(c, tmp):
                         alpha_ref, outright = 0.0, True
                     if accepted:
                         fail("accepted_nonfinite", dict(where, fresh=f_prop), cls)
-                elif (H_ref is not None or (unguarded and math.isfinite(H_impl))) and math.isfinite(f_cur):
+                elif (H_ref is not None or (unguarded and math.isfinite(H_impl))) and (math.isfinite(f_cur) or f_cur == -math.inf):
+                    # current state of zero density (log density -inf), finite proposal: change = +inf, min(1, exp(.)) = 1
+                    if f_cur == -math.inf:
+                        labels["escape_from_zero_density"] = labels.get("escape_from_zero_density", 0) + 1
                     la = (f_prop - f_cur) + (H_ref if H_ref is not None else H_impl)
                     if len(us) != 1:
                         fail("acceptance_draws", dict(where, draws=len(us)), cls)
